@@ -67,3 +67,33 @@ From OKE Require Import Codecs CodecsConcrete SuitesLaws.
 Theorem C01_laws_proved_for_the_20_suites : all_suites (fun _ _ _ _ CS => proved_laws CS).
 Proof. exact proved_laws_20. Qed.
 Print Assumptions C01_laws_proved_for_the_20_suites.
+
+
+(* the same statement at each of the 20 concrete suites: HashLaws, CodecLaws, SizeLaws and the encoding half of
+   GroupLaws are proved for them (Theory/GroupSplit.v), so the only hypothesis left is CurveLaws - seven facts of
+   elliptic-curve arithmetic (the group is a group; decompression inverts compression) *)
+From OKE Require Import CodecsConcrete GroupSplit Concrete20.
+Definition C01_honest_login_agrees_statement {E Sc Pk Sk} (CS : Suite E Sc Pk Sk) : Prop :=
+  forall tape setup t1 pw creg rq t2 cred rr ids ksf upload ek spk t3 clog ke1 t4 ctx slog ke2 t5 dbg,
+    (* non-degeneracy: hash-to-group did not hit the identity; the evaluation is not the reflected request *)
+    ve CS (o_h2g (oprf CS) pw (dst_hash_to_group (oprf CS))) ->
+    (* the steps up to the server's response ran (their only failures are resource / degenerate ones) *)
+    server_setup_new CS tape = Ok (setup, t1) ->
+    client_registration_start CS t1 pw = Ok (creg, rq, t2) ->
+    server_registration_start CS setup rq cred = Ok rr ->
+    client_registration_finish CS creg t2 pw rr ids ksf = Ok (upload, ek, spk, t3) ->
+    client_login_start CS t3 pw = Ok (clog, ke1, t4) ->
+    server_login_start CS (private_key_ops (ke CS)) t4 setup (Some (server_registration_finish upload)) ke1 cred ctx ids
+      = Ok (slog, ke2, t5, dbg) ->
+    o_eqb (oprf CS) (cq_blinded ke1) (cr_eval ke2) = false ->
+    (* then the client accepts, the server accepts the client's finalization, both hold the same session key,
+       the client gets the registration's export key [ek] and the server public key [spk] it saw at registration,
+       which is the public key of the setup's static key *)
+    exists ke3 sk dbg',
+      client_login_finish CS clog pw ke2 ctx ids ksf = Ok (ke3, sk, ek, spk, dbg') /\
+      server_login_finish CS slog ke3 = Ok sk /\
+      spk = kp_pk (ss_keypair setup) /\ kp_pk (ss_keypair setup) = k_pub (ke CS) (kp_sk (ss_keypair setup)).
+Theorem C01_honest_login_agrees_at_each_of_the_20_suites :
+  all_suites (fun _ _ _ _ CS => CurveLaws CS -> C01_honest_login_agrees_statement CS).
+Proof. apply at_the_20_suites. exact C01_honest_login_agrees. Qed.
+Print Assumptions C01_honest_login_agrees_at_each_of_the_20_suites.
